@@ -6,6 +6,7 @@ import (
 	"fmt"
 	"reflect"
 	"sort"
+	"strings"
 	"time"
 	"unsafe"
 
@@ -39,6 +40,49 @@ func sortedBranches(r *schema.Record) []int {
 	}
 	sort.SliceStable(idx, func(a, b int) bool { return r.Branches[idx[a]].Disc < r.Branches[idx[b]].Disc })
 	return idx
+}
+
+// goFieldOrder maps the positions of sortedFields / sortedBranches to Go struct field indices. Fields are matched by
+// name (case-insensitively: the generator only changes the first letter) so that the order in which the generator
+// happens to declare them does not matter; if the names do not line up one to one the order is positional.
+func goFieldOrder(t reflect.Type, names []string) []int {
+	out := make([]int, len(names))
+	used := map[int]bool{}
+	for i, n := range names {
+		out[i] = -1
+		for gi := 0; gi < t.NumField(); gi++ {
+			if !used[gi] && strings.EqualFold(t.Field(gi).Name, n) {
+				out[i] = gi
+				used[gi] = true
+				break
+			}
+		}
+		if out[i] < 0 {
+			for j := range out {
+				out[j] = j
+			}
+			return out
+		}
+	}
+	return out
+}
+
+func messageOrder(t reflect.Type, r *schema.Record) (schemaIdx, goIdx []int) {
+	schemaIdx = sortedFields(r)
+	names := make([]string, len(schemaIdx))
+	for i, si := range schemaIdx {
+		names[i] = r.Fields[si].Name
+	}
+	return schemaIdx, goFieldOrder(t, names)
+}
+
+func unionOrder(t reflect.Type, r *schema.Record) (schemaIdx, goIdx []int) {
+	schemaIdx = sortedBranches(r)
+	names := make([]string, len(schemaIdx))
+	for i, bi := range schemaIdx {
+		names[i] = r.Branches[bi].Rec.Name
+	}
+	return schemaIdx, goFieldOrder(t, names)
 }
 
 type mismatch struct{ msg string }
@@ -80,7 +124,9 @@ func injectRec(sv reflect.Value, rv *refcodec.RecValue) {
 		if sv.NumField() != len(idx) {
 			fail("message %s has %d Go fields, schema has %d", r.Name, sv.NumField(), len(idx))
 		}
-		for gi, si := range idx {
+		_, gord := messageOrder(sv.Type(), r)
+		for k, si := range idx {
+			gi := gord[k]
 			f := settable(sv.Field(gi))
 			if f.Kind() != reflect.Ptr {
 				fail("message %s field %d is not a pointer", r.Name, gi)
@@ -98,7 +144,9 @@ func injectRec(sv reflect.Value, rv *refcodec.RecValue) {
 		if sv.NumField() != len(idx) {
 			fail("union %s has %d Go fields, schema has %d branches", r.Name, sv.NumField(), len(idx))
 		}
-		for gi, bi := range idx {
+		_, gord := unionOrder(sv.Type(), r)
+		for k, bi := range idx {
+			gi := gord[k]
 			f := settable(sv.Field(gi))
 			if f.Kind() != reflect.Ptr {
 				fail("union %s field %d is not a pointer", r.Name, gi)
@@ -243,8 +291,9 @@ func extractRec(sv reflect.Value, r *schema.Record) *refcodec.RecValue {
 		}
 	case schema.Message:
 		rv.Fields = make([]*refcodec.Value, len(r.Fields))
-		for gi, si := range sortedFields(r) {
-			f := sv.Field(gi)
+		sidx, gord := messageOrder(sv.Type(), r)
+		for k, si := range sidx {
+			f := sv.Field(gord[k])
 			if f.IsNil() {
 				continue
 			}
@@ -252,8 +301,9 @@ func extractRec(sv reflect.Value, r *schema.Record) *refcodec.RecValue {
 		}
 	case schema.Union:
 		n := 0
-		for gi, bi := range sortedBranches(r) {
-			f := sv.Field(gi)
+		bidx, gord := unionOrder(sv.Type(), r)
+		for k, bi := range bidx {
+			f := sv.Field(gord[k])
 			if f.IsNil() {
 				continue
 			}
